@@ -117,7 +117,8 @@ KANI_UNITS['wasmops'] = {
   'functions': ['wasm::InlineInstruction::pretty_print (Binary arm)'],
   'jobs': 8,
   'timeout_s': {'quick': 600, 'thorough': 1800},
-  'harnesses': {('wasm_op_' + o): {'tier': 'quick', 'complete': True} for o in _OPS},
+  # thorough tier only (~3-4 min): the same Binary arm is proved by Verus unit oparms in the quick tier
+  'harnesses': {('wasm_op_' + o): {'tier': 'thorough', 'complete': True} for o in _OPS},
 }
 
 KANI_UNITS['prec'] = {
@@ -152,6 +153,7 @@ PROPERTIES = {
   },
   'C05': {
     'verus': ['lexer', 'tripcount'],
+    'verus_route': {'lexer': 'totality'},
     'kani': ['fold', 'induction'],
     # only the harnesses whose failure is a compiler crash (panic) on some input
     'kani_only': {'fold': ['fold_mul', 'fold_plus', 'fold_minus', 'fold_shl', 'fold_shr', 'fold_land', 'fold_lor', 'fold_xor',
@@ -166,15 +168,17 @@ PROPERTIES = {
              'lexer scanners; panic-freedom of constant folding and trip-count analysis; parser / checker / printer not covered',
   },
   'C01': {
-    'verus': [],
+    'verus': ['enumlayout', 'oparms'],
+    'verus_only': {'oparms': ['wasm_binary_arm']},
     'kani': ['wasmops'],
     'level': 'proof',
-    'scope': 'one kernel only: the WebAssembly instruction selected for each of the 16 operators (and ref.eq for reference '
-             'equality) by the real printer; every lowering / specialisation pass and the runtime library are not covered',
+    'scope': 'two kernels only: the WebAssembly instruction selected for each of the 16 operators (and ref.eq for reference '
+             'equality) by the real printer; the admissibility predicate of the unboxed enum-variant layout; every lowering / '
+             'specialisation pass (incl. the variant loop that uses the predicate) and the runtime library are not covered',
   },
   'C04': {
-    'verus': ['opsem'],
-    'kani': ['tsops', 'wasmops'],
+    'verus': ['opsem', 'oparms'],
+    'kani': ['wasmops'],
     'level': 'proof',
     'scope': 'one kernel only: per operator, the TypeScript template and the WebAssembly instruction emitted by the two real '
              'printers denote the same function on non-excluded operands; runtime libraries, string constants, Vec are not covered',
@@ -203,6 +207,7 @@ PROPERTIES = {
   },
   'C14': {
     'verus': ['lexer'],
+    'verus_route': {'lexer': 'positions'},
     'kani': ['loc'],
     'level': 'proof',
     'scope': 'kernels only: Position order / Location contains / union algebra over all u32 values; the lexer\'s tracked '
@@ -271,6 +276,12 @@ STANDING_ASSUMPTIONS = {
     'CBMC 6.11 / Kani 0.68; std::hash::RandomState::new stubbed; operands are two one-letter variables typed int or Str',
     'the expected templates are compared as text; their JavaScript meaning is stated in Verus unit opsem',
   ],
+  'oparms': [
+    'operands are abstract (the text they print as): Expression::pretty_print / InlineInstruction::pretty_print append an uninterpreted text; Heap, SymbolTable, PStr opaque (R7)',
+    'R14: the two Binary arms are extracted as blocks; the surrounding `let z = ` / `;` of the TypeScript statement is outside the block',
+    'vstd specs of String::push_str / push and string literals',
+    'the tables js_token / wasm_mnemonic in the unit are the JavaScript / WebAssembly operator for each source operator (their meaning is unit opsem / the WebAssembly specification)',
+  ],
   'opsem': [
     'ECMA-262 semantics of + - * / % and relational operators on Numbers holding 32-bit integers, written as spec functions (a model of JavaScript, not of code)',
     'double-precision a / b has the same floor as the real quotient for |a|, |b| < 2^31 (argued in the unit header)',
@@ -290,6 +301,10 @@ STANDING_ASSUMPTIONS = {
     'E::precedence is the number checked by Kani unit prec; the syntax tree is opaque (R7)',
     'compositionality to deeper trees is an argument (each decision looks only at a node and its two children), not a proof',
     'R14: the Binary arm of create_doc_without_preceding_comment is extracted as a block; R3 stubs for the comment docs and the operator text',
+  ],
+  'enumlayout': [
+    'Verus/Z3 + vstd HashMap/HashSet; Rewriter projected (R6) to the two tables the predicate reads; obeys_key_model::<TypeNameId>()',
+    'only the predicate is under contract; the loop in rewrite_id_type that applies it (at most one unboxed variant, only as the sole payload variant) is not',
   ],
   'pstr': [
     'CBMC 6.11 / Kani 0.68 bit-precise semantics of Rust MIR; little-endian x86_64 layout of the union',
